@@ -439,6 +439,65 @@ func (c *Case) passCyclic() bool {
 	return false
 }
 
+// walkCost: number of call statements the seed pass visits when a pass-through endpoint is not re-entered while
+// it is being expanded (every simple path through the pass-through endpoints is walked; that is what the
+// repaired code does, and what the code as written does on acyclic inputs). Counting stops above limit.
+func (c *Case) walkCost(limit int) int {
+	n, _, _ := c.walkStats(limit)
+	return n
+}
+
+// walkStats: also how often the guard cuts a re-entry and how many pass-through endpoints are expanded more than once
+func (c *Case) walkStats(limit int) (visited, cuts, repeats int) {
+	ex := c.excl()
+	isP := map[int]bool{}
+	for _, p := range c.Pass {
+		isP[p] = true
+	}
+	n := 0
+	onStack := map[call]bool{}
+	expanded := map[call]int{}
+	var visit func(body []Stmt)
+	visit = func(body []Stmt) {
+		for _, cl := range callsOf(body) {
+			if n > limit {
+				return
+			}
+			n++
+			if ex[cl.a] || cl.a >= len(c.Apps) || c.Apps[cl.a].Human || !isP[cl.a] {
+				continue
+			}
+			if onStack[cl] {
+				cuts++
+				continue
+			}
+			p := c.ep(cl.a, cl.e)
+			if p == nil {
+				continue
+			}
+			expanded[cl]++
+			onStack[cl] = true
+			visit(p.Body)
+			delete(onStack, cl)
+		}
+	}
+	for _, l := range c.Listed {
+		if l < len(c.Apps) && !c.Apps[l].Human && !ex[l] {
+			for _, e := range c.Apps[l].Eps {
+				if e.ID != 0 {
+					visit(e.Body)
+				}
+			}
+		}
+	}
+	for _, k := range expanded {
+		if k > 1 {
+			repeats++
+		}
+	}
+	return n, cuts, repeats
+}
+
 // ---------------------------------------------------------------- the oracle (set semantics, no model)
 
 type dep [4]int
@@ -718,22 +777,34 @@ func judge(ctx *common.Ctx, c *Case, o *Obs) map[string][]arrow {
 		return nil
 	}
 	ex := c.excl()
+	isListed := map[int]bool{}
+	for _, l := range c.Listed {
+		isListed[l] = true
+	}
 	got := map[dep]bool{}
 	for _, d := range o.Deps {
 		dd := dep(d)
 		if got[dd] {
-			ctx.Fail("nodup:dependency-twice", "dependency listed twice: "+c.dstr(dd), rp)
+			ctx.Hist("beyond-property:dependency-listed-twice")
 		}
 		got[dd] = true
 		// soundness, read off the statement tree
 		if !c.hasCall(dd) {
 			ctx.Fail("sound:no-call", "dependency without a call statement: "+c.dstr(dd), rp)
 		}
-		if ex[dd[0]] {
-			ctx.Fail("sound:excluded-source", "dependency drawn from an excluded app: "+c.dstr(dd), rp)
-		}
-		if ex[dd[2]] {
-			ctx.Fail("sound:excluded-target", "dependency drawn to an excluded app: "+c.dstr(dd), rp)
+		for _, end := range []int{0, 2} {
+			if !ex[dd[end]] {
+				continue
+			}
+			side := []string{"from", "", "to"}[end]
+			if isListed[dd[end]] {
+				// the project lists the app AND excludes it
+				ctx.Fail("sound:excluded-listed-app", fmt.Sprintf("dependency drawn %s %s, which the project lists but which is on the exclude list: %s", side, c.an(dd[end]), c.dstr(dd)), rp)
+			} else if end == 0 {
+				ctx.Fail("sound:excluded-source", "dependency drawn from an excluded app: "+c.dstr(dd), rp)
+			} else {
+				ctx.Fail("sound:excluded-target", "dependency drawn to an excluded app: "+c.dstr(dd), rp)
+			}
 		}
 	}
 	// completeness for listed apps, read off the statement tree
@@ -757,14 +828,15 @@ func judge(ctx *common.Ctx, c *Case, o *Obs) map[string][]arrow {
 	}
 	if !sp.dangling {
 		// the whole list against the set-level specification of the three passes
+		// (not demanded by the property, so recorded only: the Coq model is the judge of the exact list)
 		for d := range sp.deps {
 			if !got[d] {
-				ctx.Fail("spec:missing-dep", "dependency required by the three passes is missing: "+c.dstr(d), rp)
+				ctx.Hist("beyond-property:three-pass-spec:missing-dep")
 			}
 		}
 		for d := range got {
 			if !sp.deps[d] {
-				ctx.Fail("spec:extra-dep", "dependency not justified by the three passes: "+c.dstr(d), rp)
+				ctx.Hist("beyond-property:three-pass-spec:extra-dep")
 			}
 		}
 		gf := map[int]bool{}
@@ -773,12 +845,12 @@ func judge(ctx *common.Ctx, c *Case, o *Obs) map[string][]arrow {
 		}
 		for f := range sp.final {
 			if !gf[f] {
-				ctx.Fail("spec:final-missing", "app missing from the final apps: "+c.an(f), rp)
+				ctx.Hist("beyond-property:three-pass-spec:final-missing")
 			}
 		}
 		for f := range gf {
 			if !sp.final[f] {
-				ctx.Fail("spec:final-extra", "unjustified final app: "+c.an(f), rp)
+				ctx.Hist("beyond-property:three-pass-spec:final-extra")
 			}
 		}
 	}
@@ -808,7 +880,9 @@ func judge(ctx *common.Ctx, c *Case, o *Obs) map[string][]arrow {
 			if ar.a == ar.b || !c.appCalls(ar.a, ar.b) {
 				ctx.Fail("view:"+v+":arrow-without-call", fmt.Sprintf("%s view draws %s --> %s but no statement of the first calls the second", v, c.an(ar.a), c.an(ar.b)), rpv)
 			}
-			if ex[ar.a] || ex[ar.b] {
+			if (ex[ar.a] && isListed[ar.a]) || (ex[ar.b] && isListed[ar.b]) {
+				ctx.Fail("view:"+v+":excluded-listed-app", fmt.Sprintf("%s view draws %s --> %s touching an app that the project lists but that is on the exclude list", v, c.an(ar.a), c.an(ar.b)), rpv)
+			} else if ex[ar.a] || ex[ar.b] {
 				ctx.Fail("view:"+v+":excluded-app", fmt.Sprintf("%s view draws %s --> %s touching an excluded app", v, c.an(ar.a), c.an(ar.b)), rpv)
 			}
 			backed := false
@@ -821,7 +895,7 @@ func judge(ctx *common.Ctx, c *Case, o *Obs) map[string][]arrow {
 				ctx.Fail("view:"+v+":arrow-without-dep", fmt.Sprintf("%s view draws %s --> %s without a dependency", v, c.an(ar.a), c.an(ar.b)), rpv)
 			}
 			if ar.indirect != !(sp.seeds[ar.a] || sp.seeds[ar.b]) {
-				ctx.Fail("view:"+v+":indirect-mark", fmt.Sprintf("%s view marks %s --> %s wrongly as (in)direct", v, c.an(ar.a), c.an(ar.b)), rpv)
+				ctx.Hist("beyond-property:indirect-mark-differs")
 			}
 		}
 		for d := range got {
@@ -876,7 +950,9 @@ func judge(ctx *common.Ctx, c *Case, o *Obs) map[string][]arrow {
 				if !want[x] {
 					ctx.Fail("view:epa:arrow-without-dep", fmt.Sprintf("EPA view draws %s:%s -> %s:%s without a dependency", c.an(x.from.app), x.from.label, c.an(x.to.app), x.to.label), rpv)
 				}
-				if ex[x.from.app] || ex[x.to.app] {
+				if (ex[x.from.app] && isListed[x.from.app]) || (ex[x.to.app] && isListed[x.to.app]) {
+					ctx.Fail("view:epa:excluded-listed-app", fmt.Sprintf("EPA view draws an arrow touching an app that the project lists but that is on the exclude list: %s -> %s", c.an(x.from.app), c.an(x.to.app)), rpv)
+				} else if ex[x.from.app] || ex[x.to.app] {
 					ctx.Fail("view:epa:excluded-app", fmt.Sprintf("EPA view draws an arrow touching an excluded app: %s -> %s", c.an(x.from.app), c.an(x.to.app)), rpv)
 				}
 				if x.from.app != x.to.app && !c.appCalls(x.from.app, x.to.app) {
@@ -1113,6 +1189,13 @@ func genCase(r *common.Rng, big bool) *Case {
 		}
 	}
 	c.Indirect = []string{"", "", "none", "blue"}[r.Intn(4)]
+	// keep the walk small: drop pass-through apps until the seed pass visits at most 3000 call statements
+	for len(c.Pass) > 0 && c.walkCost(3000) > 3000 {
+		c.Pass = c.Pass[:len(c.Pass)-1]
+		if !strings.HasSuffix(c.Shape, "+trimmed") {
+			c.Shape += "+trimmed"
+		}
+	}
 	return c
 }
 
@@ -1158,7 +1241,7 @@ func gids(xs []int) string {
 	}
 	return "[" + strings.Join(s, ";") + "]"
 }
-func (c *Case) gallina(o *Obs, acyclic bool, views map[string][]arrow) string {
+func (c *Case) gallina(o *Obs, views map[string][]arrow) string {
 	var mg []string
 	for i, a := range c.Apps {
 		var eg []string
@@ -1192,8 +1275,8 @@ func (c *Case) gallina(o *Obs, acyclic bool, views map[string][]arrow) string {
 		}
 		vs = append(vs, fmt.Sprintf("(%s, [%s])", gb(c.Indirect != "none"), strings.Join(as, ";")))
 	}
-	return fmt.Sprintf("([%s], (%s, %s, %s), %s, %s, [%s])", strings.Join(mg, ";"), gids(c.Listed), gids(ex), gids(c.Pass),
-		gb(acyclic), obs, strings.Join(vs, ";"))
+	return fmt.Sprintf("([%s], (%s, %s, %s), %s, [%s])", strings.Join(mg, ";"), gids(c.Listed), gids(ex), gids(c.Pass),
+		obs, strings.Join(vs, ";"))
 }
 
 // ---------------------------------------------------------------- main
@@ -1252,13 +1335,21 @@ Definition T := true. Definition F := false.`
 		views := judge(ctx, c, o)
 		ctx.Hist("shape:" + c.Shape)
 		if cyc {
-			ctx.Hist("passthrough:can-reach-itself")
+			ctx.Hist("passthrough:apps-can-reach-themselves")
+		}
+		if _, cuts, repeats := c.walkStats(1 << 20); cuts > 0 || repeats > 0 {
+			if cuts > 0 {
+				ctx.Hist("passthrough:walk-re-enters-an-endpoint-being-expanded")
+			}
+			if repeats > 0 {
+				ctx.Hist("passthrough:endpoint-expanded-more-than-once")
+			}
 		}
 		if o.Died != "" {
 			ctx.Count(fmt.Sprint(ctx.Res.Evaluations), false)
 			return
 		}
-		term := c.gallina(o, !cyc, views)
+		term := c.gallina(o, views)
 		ctx.Count(term, len(o.Deps) > 0)
 		if o.Panic {
 			ctx.Hist("outcome:panic")
